@@ -236,6 +236,78 @@ func poseidonVectorObligations(lib *SpecLib, repo string) ([]*Obligation, string
 	return obls, ""
 }
 
+// inputHashLinkObligations: for parameter sets printed by the real ComputeInputHash* helpers, the circuit-side
+// specification (bit-level packing, keccak.digest, big-endian recomposition, reduction mod r) must give the same
+// input hash. This links the byte-level specification C08 is proved against with the bit-level one of C03.
+func inputHashLinkObligations(lib *SpecLib, repo string) ([]*Obligation, string) {
+	out, err := runHarness(repo, "prover", "C08_vectors_test.go", "TestVerifVectorsC08")
+	if err != nil {
+		return nil, "reference vectors could not be produced: " + trunc(out, 300)
+	}
+	var obls []*Obligation
+	bi := func(s string) *big.Int { v, _ := new(big.Int).SetString(s, 10); return v }
+	for _, l := range strings.Split(out, "\n") {
+		fs := strings.Fields(l)
+		if len(fs) < 5 || (fs[0] != "INS" && fs[0] != "DEL") {
+			continue
+		}
+		eq := -1
+		for i, f := range fs {
+			if f == "=" {
+				eq = i
+			}
+		}
+		if eq < 0 || eq+1 >= len(fs) {
+			continue
+		}
+		want := bi(fs[eq+1])
+		var got *big.Int
+		var evalErr error
+		func() {
+			defer func() {
+				if r := recover(); r != nil {
+					evalErr = fmt.Errorf("%v", r)
+				}
+			}()
+			ce := newConcreteEval(lib)
+			var msg *cval
+			var nbits int64
+			if fs[0] == "INS" {
+				var idc []*big.Int
+				for _, f := range fs[4:eq] {
+					idc = append(idc, bi(f))
+				}
+				msg = ce.call("pack.insBits", []*cval{cInt(bi(fs[1])), cInt(bi(fs[2])), cInt(bi(fs[3])), intArray(idc)})
+				nbits = 544 + 256*int64(len(idc))
+			} else {
+				var dix []*big.Int
+				for _, f := range fs[3:eq] {
+					dix = append(dix, bi(f))
+				}
+				msg = ce.call("pack.delBits", []*cval{intArray(dix), cInt(bi(fs[1])), cInt(bi(fs[2])), cInt(big.NewInt(int64(len(dix))))})
+				nbits = 512 + 32*int64(len(dix))
+			}
+			d := ce.call("keccak.digest", []*cval{msg, cInt(big.NewInt(nbits)), cInt(big.NewInt(1))})
+			v := ce.call("pack.beval", []*cval{d, cInt(big.NewInt(256))})
+			got = new(big.Int).Mod(v.i, fieldP)
+		}()
+		// the helper stores the unreduced 256-bit value; the circuit compares modulo r
+		wantR := new(big.Int).Mod(want, fieldP)
+		ok := evalErr == nil && got.Cmp(wantR) == 0
+		note := fmt.Sprintf("circuit-side specification gives %v, the real helper gives %v (mod r: %v)", got, want, wantR)
+		if evalErr != nil {
+			note = "specification could not be evaluated: " + evalErr.Error()
+		}
+		b := ok
+		obls = append(obls, &Obligation{Name: fmt.Sprintf("spec-vector/input-hash-link(%s)", strings.Join(fs[:eq], ",")), Func: "spec:04_pack.smt2",
+			Kind: "spec-vector", Goal: BoolLit(ok), Static: &b, Note: note})
+	}
+	if len(obls) == 0 {
+		return nil, "the reference harness printed no vectors: " + trunc(out, 300)
+	}
+	return obls, ""
+}
+
 func hexBytes(s string) []byte {
 	var out []byte
 	for i := 0; i+1 < len(s); i += 2 {
